@@ -15,7 +15,7 @@ package keeper
 // verif:spec decodedPacket(bz []byte) types.Packet
 // verif:spec abiPackOK(p types.Packet) bool
 // verif:spec abiPack(p types.Packet) []byte
-// verif:spec unmarshalIface_ClientState(bz []byte) exported.ClientState
+// verif:spec unmarshalIface(bz []byte) exported.ClientState
 // verif:spec clientTypeOf(cs exported.ClientState) string
 // verif:spec verifiedCommitment(cs exported.ClientState, store sdk.KVStore, height exported.Height, proof []byte, srcChain string, dstChain string, sequence uint64, commitment []byte) bool
 // verif:spec verifiedAck(cs exported.ClientState, store sdk.KVStore, height exported.Height, proof []byte, srcChain string, dstChain string, sequence uint64, ack []byte) bool
@@ -82,7 +82,7 @@ package keeper
 //@ let p  = decodedPacket(msg.Packet)
 //@ let rk = host.PacketReceiptKey(p.SrcChain, p.DstChain, p.Sequence)
 //@ let ck = host.PacketCommitmentKey(p.SrcChain, p.DstChain, p.Sequence)
-//@ let cs = unmarshalIface_ClientState(kvget(old(xibc(ctx)), host.FullClientStateKey(p.SrcChain)))
+//@ let cs = unmarshalIface(kvget(old(xibc(ctx)), host.FullClientStateKey(p.SrcChain)))
 //@ let relay = p.DstChain != old(k.clientKeeper.GetChainName(ctx)) && kvhas(old(xibc(ctx)), host.FullClientStateKey(p.DstChain))
 //@ ensures [reject-clean]  err != nil ==> xibc(ctx) == old(xibc(ctx))
 //@ ensures [receipt-fresh] err == nil && decodeOK(msg.Packet) ==> !kvhas(old(xibc(ctx)), rk)
@@ -125,7 +125,7 @@ package keeper
 //@ let p  = decodedPacket(msg.Packet)
 //@ let ck = host.PacketCommitmentKey(p.SrcChain, p.DstChain, p.Sequence)
 //@ let ak = host.PacketAcknowledgementKey(p.SrcChain, p.DstChain, p.Sequence)
-//@ let cs = unmarshalIface_ClientState(kvget(old(xibc(ctx)), host.FullClientStateKey(p.DstChain)))
+//@ let cs = unmarshalIface(kvget(old(xibc(ctx)), host.FullClientStateKey(p.DstChain)))
 //@ let own = p.SrcChain == old(k.clientKeeper.GetChainName(ctx))
 //@ ensures [reject-clean]  err != nil ==> xibc(ctx) == old(xibc(ctx)) || (decodeOK(msg.Packet) && !own && xibc(ctx) == kvdel(old(xibc(ctx)), ck))
 //@ ensures [reject-clean-own] err != nil && own ==> xibc(ctx) == old(xibc(ctx))
@@ -148,3 +148,51 @@ package keeper
 //@ ensures [resp]           err == nil ==> result != nil
 //@ ensures [receipts-kept]  receiptsKept(old(xibc(ctx)), xibc(ctx))
 //@ ensures [acks-kept]      acksKept(old(xibc(ctx)), xibc(ctx))
+
+// verif:import packetcontract github.com/teleport-network/teleport/syscontracts/xibc_packet
+// verif:spec abiCall(method string, args []interface{}) []byte
+
+// verif:func (Keeper).CallPacket
+//@ modifies world(ctx)
+//@ callsite CallEVMWithData [from-module]   from == types.ModuleAddress
+//@ callsite CallEVMWithData [to-packet]     *contract == packetcontract.PacketContractAddress
+//@ ensures [all-or-nothing] err != nil ==> unchanged(ctx)
+//@ ensures [resp]           err == nil ==> result != nil
+//@ ensures [receipts-kept]  receiptsKept(old(xibc(ctx)), xibc(ctx))
+//@ ensures [acks-kept]      acksKept(old(xibc(ctx)), xibc(ctx))
+
+// ---- SendPacket (C04) ---------------------------------------------------------------------------
+// pk is the packet value behind the PacketI interface (the only implementation is *types.Packet).
+// "kept" = the nested setSequence call on the packet contract left the xibc store alone (it emits no
+// PacketSent event, so no hook sends a packet; that is a fact about the contract's byte code and is
+// therefore a stated hypothesis of [counter] and [effect], not something proved here).
+
+// verif:func (Keeper).SendPacket
+//@ modifies world(ctx)
+//@ let pk   = *as(packet, *types.Packet)
+//@ let nk   = host.NextSequenceSendKey(pk.SrcChain, pk.DstChain)
+//@ let ck   = host.PacketCommitmentKey(pk.SrcChain, pk.DstChain, pk.Sequence)
+//@ let next = old(k.GetNextSequenceSend(ctx, pk.SrcChain, pk.DstChain))
+//@ ensures [src-self]     err == nil ==> pk.SrcChain == old(k.clientKeeper.GetChainName(ctx))
+//@ ensures [dst-known]    err == nil ==> kvhas(old(xibc(ctx)), host.FullClientStateKey(pk.DstChain))
+//@ ensures [seq]          err == nil ==> pk.Sequence == next
+//@ let kept = callpost("CallPacket", xibc) == callpre("CallPacket", xibc)
+//@ ensures [counter]      err == nil && kept ==> k.GetNextSequenceSend(ctx, pk.SrcChain, pk.DstChain) == next + 1
+//@ ensures [commit]       err == nil ==> kvget(xibc(ctx), ck) == types.CommitAcknowledgement(abiPack(pk))
+//@ ensures [effect]       err == nil && kept ==> xibc(ctx) == kvset(kvset(old(xibc(ctx)), nk, sdk.Uint64ToBigEndian(next + 1)), ck, types.CommitAcknowledgement(abiPack(pk)))
+//@ callsite CallPacket [contract-counter] method == "setSequence" && len(args) == 2 && as(args[0], string) == pk.DstChain && as(args[1], uint64) == next + 1
+//@ ensures [receipts-kept] receiptsKept(old(xibc(ctx)), xibc(ctx))
+//@ ensures [acks-kept]     acksKept(old(xibc(ctx)), xibc(ctx))
+//@ ensures [early-reject-clean] err != nil && !abiPackOK(pk) ==> unchanged(ctx)
+
+// ---- EVM hook that turns PacketSent logs into sends (C04) ---------------------------------------
+
+// verif:func (Hooks).PostTxProcessing
+//@ modifies world(ctx)
+//@ callsite SendPacket [own-logs-only] log.Address == packetcontract.PacketContractAddress && len(log.Topics) != 0
+//@ loop 1 continue [propagate]  callsok("SendPacket") && callsok("ABIDecode") && callsok("EventByID") && callsok("Unpack") && callsok("Marshal") && callsok("Unmarshal")
+//@ loop 1 continue [each-once]  ncalls("SendPacket") <= 1
+//@ loop 1 invariant [receipts] receiptsKept(old(xibc(ctx)), xibc(ctx))
+//@ loop 1 invariant [acks]     acksKept(old(xibc(ctx)), xibc(ctx))
+//@ ensures [receipts-kept] receiptsKept(old(xibc(ctx)), xibc(ctx))
+//@ ensures [acks-kept]     acksKept(old(xibc(ctx)), xibc(ctx))
